@@ -632,17 +632,19 @@ func genHandler(t *rapid.T, depth int) handler {
 			js["read_burst_size"] = 4096
 		}
 		if rapid.Bool().Draw(t, "rbps") {
-			v := pick(t, "rate", "1000", "2500.5", "1e6")
+			// (values a float64 holds and a float32 does not are part of the range: the JSON field is a float64)
+			v := pick(t, "rate", "1000", "2500.5", "1e6", "0.1", "1234.56", "123456789")
 			n.block = append(n.block, node{name: "read_bytes_per_second", args: []string{v}})
-			js["read_bytes_per_second"] = map[string]float64{"1000": 1000, "2500.5": 2500.5, "1e6": 1e6}[v]
+			js["read_bytes_per_second"] = map[string]float64{"1000": 1000, "2500.5": 2500.5, "1e6": 1e6, "0.1": 0.1, "1234.56": 1234.56, "123456789": 123456789}[v]
 		}
 		if rapid.Bool().Draw(t, "trbs") {
 			n.block = append(n.block, node{name: "total_read_burst_size", args: []string{"65536"}})
 			js["total_read_burst_size"] = 65536
 		}
 		if rapid.Bool().Draw(t, "trbps") {
-			n.block = append(n.block, node{name: "total_read_bytes_per_second", args: []string{"500000"}})
-			js["total_read_bytes_per_second"] = 500000
+			v := pick(t, "totalRate", "500000", "333333.3", "16777217")
+			n.block = append(n.block, node{name: "total_read_bytes_per_second", args: []string{v}})
+			js["total_read_bytes_per_second"] = map[string]float64{"500000": 500000, "333333.3": 333333.3, "16777217": 16777217}[v]
 		}
 		return handler{n, js}
 	case "tls":
